@@ -1080,6 +1080,24 @@ func (x *Exec) analyzeLoops(fr *Frame) {
 				}
 			}
 		}
+		// a loop contract whose key text no longer matches (the loop header was edited) is paired with the
+		// only loop left without a contract, if that pairing is unambiguous
+		var freeC []*LoopContract
+		for _, lc := range fc.Loops {
+			if !lc.used {
+				freeC = append(freeC, lc)
+			}
+		}
+		var freeL []*loopInfo
+		for _, k := range lks {
+			if k.li.lc == nil {
+				freeL = append(freeL, k.li)
+			}
+		}
+		if len(freeC) == 1 && len(freeL) == 1 {
+			freeL[0].lc = freeC[0]
+			freeC[0].used = true
+		}
 	}
 }
 
